@@ -200,6 +200,20 @@ theorem fft_mul_inv_eq_multiply (h : List (Op ℂ)) (a b : Array Int) (m : Nat) 
   rw [fftMulInvRef?_exact a b m ha hb hlen, range_map_convAt a b (2^m) ha hb hlen]
   exact ⟨rfl, rfl⟩
 
+/-- **The accumulate-into variant of the inverse transform adds exactly that convolution to the destination**:
+    forward transforms, pointwise product, `fft_inv_into(…, dest)` adds `multiply a b` (followed by zeros up to the
+    transform size `2^m`) to `dest` on the common prefix and leaves every further entry of `dest` unchanged —
+    destination shorter than, equal to or longer than `2^m`, any call history. -/
+theorem fft_mul_inv_into_adds (h : List (Op ℂ)) (a b : Array Int) (m : Nat) (ha : a.size ≠ 0) (hb : b.size ≠ 0)
+    (hlen : a.size + b.size - 1 ≤ 2^m) (dest : List Int) :
+    result arithC (after arithC h) (.fftMulInvInto a b (2^m) dest)
+      = .ok (.ints (addPrefix dest
+          ((multiply arithC (after arithC h) a b).2 ++ List.replicate (2^m - (a.size + b.size - 1)) 0))) := by
+  rw [multiply_exact, (call_reach arithC _ (reach_after arithC h) _).1]
+  simp only [resultRef]
+  rw [fftMulInvIntoRef?_exact a b m ha hb hlen, range_map_convAt a b (2^m) ha hb hlen]
+  rfl
+
 end LevelB
 
 /-! ### non-vacuity -/
